@@ -204,8 +204,39 @@ struct checks {
         }
         vh::distinct(1);
     }
-    void convert() {
+    // converting read of a sub-rectangle == the same rectangle of the converting read of the whole file (what
+    // the conversion itself gives is judged by convert_to above, so its known findings are not raised twice).
+    // One case per destination type: a fatal report for one must not hide the others.
+    template <class Q> void convert_sub_to(Img const& A, const char* qname) {
+        typedef gil::image<Q, false> qimg_t;
+        long W = A.width(), H = A.height();
+        if (W < 2 || H < 2) return;
+        long x0 = std::max(1L, W / 3), y0 = std::max(1L, H / 4), dx = std::max(1L, (W - x0) / 2), dy = std::max(1L, (H - y0) * 2 / 3);
+        qimg_t C, S;
+        vh::evals(1); vh::distinct(1);
+        try { std::stringstream ss(f.bytes, std::ios::in | std::ios::binary); gil::read_and_convert_image(ss, C, Tag()); } catch (std::exception const&) { return; }   // reported by convert_to
+        try { std::stringstream ss(f.bytes, std::ios::in | std::ios::binary); gil::read_and_convert_image(ss, S, settings_t(gil::point_t(x0, y0), gil::point_t(dx, dy))); }
+        catch (std::exception const& e) { vh::viol(key("convert-subrect-exception", qname), vh::cat(f.name, ": ", e.what())); return; }
+        cio::diff_t d = cio::compare_views(gil::subimage_view(gil::const_view(C), (int)x0, (int)y0, (int)dx, (int)dy), gil::const_view(S));
+        if (d.any()) vh::viol(key("convert-subrect", qname), vh::cat(f.name, " ", W, "x", H, " -> ", qname, " rect (", x0, ",", y0, ")+", dx, "x", dy, ": ", d.str()));
+        // and into a view of exactly that size
+        qimg_t V(dx, dy);
+        try { std::stringstream ss(f.bytes, std::ios::in | std::ios::binary); gil::read_and_convert_view(ss, gil::view(V), settings_t(gil::point_t(x0, y0), gil::point_t(dx, dy))); }
+        catch (std::exception const& e) { vh::viol(key("convert-subrect-exception", vh::cat(qname, "-view")), vh::cat(f.name, ": ", e.what())); return; }
+        cio::diff_t d2 = cio::compare_views(gil::subimage_view(gil::const_view(C), (int)x0, (int)y0, (int)dx, (int)dy), gil::const_view(V));
+        if (d2.any()) vh::viol(key("convert-subrect", vh::cat(qname, "-view")), vh::cat(f.name, " ", W, "x", H, " rect (", x0, ",", y0, ")+", dx, "x", dy, ": ", d2.str()));
+        vh::obs("convert.subrect");
+    }
+    static const char* convert_dst(int k) { static const char* n[] = { "", "gray8", "rgb8", "rgba8", "rgb16", "gray32f" }; return n[k]; }
+    void convert(int sub) {
         Img A; if (!full(A)) return;
+        switch (sub) {
+        case 1: convert_sub_to<gil::gray8_pixel_t>(A, "gray8"); return;
+        case 2: convert_sub_to<gil::rgb8_pixel_t>(A, "rgb8"); return;
+        case 3: convert_sub_to<gil::rgba8_pixel_t>(A, "rgba8"); return;
+        case 4: convert_sub_to<gil::rgb16_pixel_t>(A, "rgb16"); return;
+        case 5: convert_sub_to<gil::gray32f_pixel_t>(A, "gray32f"); return;
+        }
         convert_to<gil::gray8_pixel_t>(A, "gray8");
         convert_to<gil::rgb8_pixel_t>(A, "rgb8");
         convert_to<gil::rgba8_pixel_t>(A, "rgba8");
@@ -552,7 +583,7 @@ struct checks {
     void run(int path, int sub = 0) {
         switch (path) {
         case 0: subrect(sub / 4, sub % 4); break;
-        case 1: convert(); break;
+        case 1: convert(sub); break;
         case 2: scanline(sub); break;
         case 3: readview(sub); break;
         case 4: anyimage(); break;
@@ -1006,13 +1037,14 @@ int main(int argc, char** argv) {
         for (int p = 0; p < NPATHS; ++p) {
             entry_t const& e = files()[i];
             std::string id = e.f.name.substr(e.f.name.find(':') + 1);
-            for (int sub = 0; sub < (p == 0 ? 16 : p == 3 ? 4 : p == 2 ? 5 : p == 8 ? (int)cio::SK_COUNT : 1); ++sub) {
+            for (int sub = 0; sub < (p == 0 ? 16 : p == 3 ? 4 : p == 2 ? 5 : p == 1 ? 6 : p == 8 ? (int)cio::SK_COUNT : 1); ++sub) {
                 // the case class carries format, path, file variant and (sub-rectangles) the rectangle class, so
                 // that a fatal report is attributed as precisely as an oracle mismatch
                 std::string cls = vh::cat("c13.", FMT, ".", PATHS[p], ".", e.f.variant);
                 if (p == 0) cls += vh::cat(".", XCLS[sub / 4], "-", YCLS[sub % 4]);
                 if (p == 2 && sub > 0) cls += vh::cat(".", sub == 1 ? "skip-then-deref" : sub == 2 ? "deref-skip-deref" : sub == 3 ? "advance" : "alternate");
                 if (p == 8) cls += vh::cat(".", cio::stream_kind_name(sub));
+                if (p == 1 && sub > 0) cls += vh::cat(".subrect-", sub == 1 ? "gray8" : sub == 2 ? "rgb8" : sub == 3 ? "rgba8" : sub == 4 ? "rgb16" : "gray32f");
                 if (p == 3) cls += vh::cat(".", sub == 0 ? "whole" : sub == 1 ? "xoff-toright-yoff-tobottom" : sub == 2 ? "x0-shortw-y0-shorth" : "xoff-shortw-yoff-shorth");
                 if (!vh::begin_case(cls, id)) continue;
                 run_file(e, p, sub);
